@@ -62,6 +62,9 @@ def rule_capture_complete(ctx, rep: Report, rid="G1", min_actions=26):
     for a in acts:
         lab = aa.label(a)
         reads = aa.reads_of_lambda(a.action)
+        if not reads.whole and set(reads.positional) == {"0"} and \
+                (a.kind in VARIABLE_TERMINALS or a.kind in ("OriginalTextFor", "Combine", "Literal", "Keyword")):
+            reads.whole = True      # a single-token element: t[0] is everything it matched
         sc = Scope(g, a)
         pts = list(info_points(sc))
         if a.kind in VARIABLE_TERMINALS:
@@ -216,9 +219,16 @@ def rule_binding(ctx, rep: Report, rid="F1", min_actions=26):
         lab = aa.label(a)
         calls = aa.constructor_calls(a.action)
         if not calls:
-            rep.add(rid, f"{lab}:action builds a node object", False,
-                    f"cannot resolve the constructor called by the parse action "
-                    f"{unparse(a.action.node)[:80]}", gloc(a))
+            # an action that builds no node returns (possibly rewritten) token text.  On an element
+            # whose text is information (variable text / verbatim zone) only the identity is faithful.
+            body = a.action.node.body if isinstance(a.action.node, ast.Lambda) else None
+            tok = a.action.node.args.args[-1].arg if isinstance(a.action.node, ast.Lambda) and a.action.node.args.args else None
+            ident = body is not None and _is_identity_text(body, tok)
+            carries = any(n.kind in VARIABLE_TERMINALS or n.kind in ("OriginalTextFor", "Combine")
+                          for n, _ in Scope(g, a).members)
+            rep.add(rid, f"{lab}:text-returning action leaves matched text unchanged", ident or not carries,
+                    f"parse action {unparse(a.action.node)[:70]} rewrites the text matched by "
+                    f"{ctx_label(g, a)}: what the tree holds is no longer what the source says", gloc(a))
             continue
         sc = Scope(g, a)
         defined = sc.defined_names()
@@ -281,6 +291,19 @@ def rule_binding(ctx, rep: Report, rid="F1", min_actions=26):
     rep.units["constructor_bindings"] = nbind
     if nbind < min_actions:
         raise AnalysisError(f"{rep.prop}/{rid}: {nbind} constructor bindings resolved, {min_actions} expected")
+
+
+def _is_identity_text(body: ast.AST, tok: Optional[str]) -> bool:
+    e = body
+    while isinstance(e, ast.Call) and isinstance(e.func, ast.Attribute) and e.func.attr in ("strip", "lstrip", "rstrip") \
+            and not e.args:
+        e = e.func.value
+    if isinstance(e, ast.Call) and isinstance(e.func, ast.Name) and e.func.id == "str" and len(e.args) == 1:
+        e = e.args[0]
+    if isinstance(e, ast.Subscript) and isinstance(e.value, ast.Name) and e.value.id == tok and \
+            isinstance(e.slice, ast.Constant) and e.slice.value == 0:
+        return True
+    return isinstance(e, ast.Name) and e.id == tok
 
 
 def _compatible(prog: Program, gq: str, aq: str) -> bool:
